@@ -282,7 +282,7 @@ def gen_case(r, impl):
 def run(rep, tier, seed, model_ok=True, effort=1, for_c01=False):
     from . import impl
     r = common.rng(seed, "c05")
-    n = (700 if tier == "quick" else 12000) * effort
+    n = (700 if tier == "quick" else 40000) * effort
     rep.rule = ("seeded (grammar pattern, version state, flag set out of 2^7 x tag values, date offset incl. earlier dates): `bumpver test` through "
                 "CliRunner; result compared with the Coq model of cli.test and with an independent part-level re-implementation of the README rules; "
                 "non-trivial = distinct case whose bump succeeds")
